@@ -37,10 +37,28 @@ TOL_META = 1e-9  # metamorphic relations that leave the linear system unchanged;
 TOL_A = 1e-12  # float log / product against the exact rational
 # scipy's lsqr runs with its default atol = btol = 1e-6 (lfq.py passes none), i.e. it is SPECIFIED to stop
 # when |A^T r| <= atol |A| |r| or |r| <= btol |b| + atol |A| |x|; measured accuracy of the log intensities
-# is <= 3e-7, so comparisons ACROSS different lsqr runs / against the exact least-squares solution use 1e-5
+# reaches 1.2e-5 on sparse FastLFQ graphs (thorough tier), so comparisons ACROSS different lsqr runs / against
+# the exact least-squares solution use the error bound that follows from those two rules (lsqr_error_bound,
+# typically 1e-5 .. 5e-4); everything that does not pass through a different lsqr run is compared at 1e-9
 LSQR_TOL = 1e-6
-TOL_LS = 1e-5
 TOL_CERT = 1e-8
+
+
+def lsqr_error_bound(A, b, y):
+    """how far a vector accepted by lsqr's documented stopping rules (atol = btol = 1e-6, slack 4) can be
+    from the exact least-squares solution y of A y = b, in the components orthogonal to the null space:
+    rule 1  |r| <= btol |b| + atol |A| |x|   gives  |dy| <= |A^+| (btol |b| + atol |A| |y|)
+    rule 2  |A^T r| <= atol |A| |r|           gives  |dy| <= |A^+|^2 atol |A| |r|"""
+    import numpy as np
+
+    sv = np.linalg.svd(A, compute_uv=False)
+    smin = min((x for x in sv if x > 1e-9 * max(sv[0], 1.0)), default=1.0)
+    pinv = 1.0 / smin
+    nA = float(np.linalg.norm(A))
+    r = A @ np.array(y) - b
+    b1 = pinv * LSQR_TOL * (float(np.linalg.norm(b)) + nA * float(np.linalg.norm(y)))
+    b2 = pinv * pinv * LSQR_TOL * nA * float(np.linalg.norm(r))
+    return 4.0 * max(b1, b2)
 
 NAME_SCHEMES = [
     lambda i: "s%02d" % i,
@@ -324,7 +342,15 @@ def expected_log(n, sp):
     for k, z in enumerate(zero):
         A[len(eqs) + 1 + k, z] = 1
     y = np.linalg.lstsq(A, b, rcond=None)[0]
-    return [float(v) for v in y], seen, zero
+    return [float(v) for v in y], seen, zero, lsqr_error_bound(A, b, y)
+
+
+def ls_tolerance(n, group, cutoff, minr, stab, graph):
+    """relative tolerance for LFQ intensities that went through lsqr on this group's system"""
+    sp = spec(n, group, cutoff, minr, stab, graph)
+    if not sp["eqs"]:
+        return TOL_META
+    return TOL_META + 2.0 * expected_log(n, sp)[3]
 
 
 def check_group_direct(n, group, cutoff, minr, stab, graph, out, gfac=None):
@@ -339,7 +365,8 @@ def check_group_direct(n, group, cutoff, minr, stab, graph, out, gfac=None):
         if any(x != 0 for x in out):
             return "no valid sample pair, but LFQ intensities are not all 0: %r" % (out,)
         return None
-    y, seen, zero = expected_log(n, sp)
+    y, seen, zero, bound = expected_log(n, sp)
+    tol_ls = TOL_META + 2.0 * bound
     for z in zero:
         if out[z] != 0:
             return "sample %d has no valid pairwise ratio but LFQ %r != 0" % (z, out[z])
@@ -354,7 +381,7 @@ def check_group_direct(n, group, cutoff, minr, stab, graph, out, gfac=None):
         for c in comp[1:]:
             got = math.log(out[c]) - math.log(out[a])
             want = y[c] - y[a]
-            if not close_abs(got, want, TOL_LS):
+            if not abs(got - want) <= tol_ls:
                 return "log ratio of linked samples %d/%d is %r, least-squares solution of the median ratios gives %r" % (c, a, got, want)
     if gfac is not None and len(seen) == n and len(components(n, sp["eqs"])) == 1 and all(e["w"] == 0 for e in sp["eqs"]):
         g = [Fraction(x) for x in gfac]
@@ -367,7 +394,7 @@ def check_group_direct(n, group, cutoff, minr, stab, graph, out, gfac=None):
             G = sum(g)
             for s in range(n):
                 want = fl(sp["total"] * g[s] / G)
-                if not close(out[s], want, TOL_LS):
+                if not close(out[s], want, tol_ls):
                     return "consistent data (I = f_p * g_s), connected: LFQ[%d] = %r, expected total*g/sum(g) = %r" % (s, out[s], want)
     return None
 
@@ -422,11 +449,14 @@ class P(Prop):
                 npep = rng.choice([1, 3, 5, 7])
                 miss_g = 0.0
             else:
-                npep = rng.randint(1, 8) if not stab else rng.choice([2, 3, 6, 8, 12])
+                npep = rng.randint(1, 8) if not stab else rng.choice([2, 3, 6, 8, 12, 12, 14])
                 miss_g = miss
             precs = []
             # under stabilisation give some samples few peptides (very unequal peptide counts)
             poor = set(rng.sample(range(n), rng.randint(0, n // 2))) if stab else set()
+            # sometimes two blocks of samples with disjoint peptides: the pair graph has several components
+            blocks = (not odd_only) and n >= 4 and rng.random() < 0.12
+            cutb = rng.randint(2, n - 2) if blocks else n
             for _p in range(npep):
                 pep = "PEP%s" % "ABCDEFGHIJKLMNOPQRSTUVWXYZ"[pid % 26] + ("" if pid < 26 else str(pid // 26))
                 pid += 1
@@ -438,6 +468,8 @@ class P(Prop):
                         if rng.random() < miss_g:
                             continue
                         if s in poor and _p >= 2 and rng.random() < 0.85:
+                            continue
+                        if blocks and (s < cutb) != (_p % 2 == 0):
                             continue
                         for fr in fracs:
                             v = f * g[s] * (1 if fr in (-1, 1) else fr)
@@ -707,7 +739,8 @@ class P(Prop):
                     yield "direct-call", "direct-call: group %d _getLFQIntensities with the recorded graph gives %r, append_columns gave %r" % (gi, ident, base[gi])
                 if not even:
                     o5 = run_direct(n, g, order, cutoff, case["minr"], case["stab"], tg)
-                    if not vec_close(base[gi], o5, TOL_LS):
+                    tol5 = 2 * ls_tolerance(n, g, cutoff, case["minr"], case["stab"], graph)
+                    if not vec_close(base[gi], o5, tol5):
                         yield "sample-permutation[graph-transported]", "sample-permutation[graph-transported]: group %d LFQ %r became %r under the sample permutation %r" % (gi, base[gi], o5, perm)
         o6, rec6 = self._base(case, order=order, record=True)
         # the statement itself on the permuted input (with the graph the implementation used there)
@@ -720,8 +753,31 @@ class P(Prop):
             why = check_group_direct(n, pg, cutoff, case["minr"], case["stab"], g6, pout, None)
             if why:
                 yield "direct-permuted", "group %d after sample permutation %r: %s" % (gi, perm, why)
+        # 5b. sharp: the right-hand sides of the permuted run are the transported right-hand sides (sign by
+        #     orientation) — this does not pass through lsqr, so 1e-9
         for gi in range(len(base)):
-            if not vec_close(base[gi], o6[gi], TOL_LS):
+            b0 = {(i, j): v for i, j, v in impl_out["groups"][gi]["b"]}
+            r6 = rec6["groups"][gi]
+            d6 = (r6.get("b", r6.get("ratios", {})) if case["stab"] else r6.get("ratios", {})) or {}
+            b6 = {(int(i), int(j)): float(v) for (i, j), v in d6.items()}
+            want = {}
+            for (i, j), v in b0.items():
+                pi, pj = perm[i], perm[j]
+                want[(pi, pj) if pi < pj else (pj, pi)] = v if pi < pj else -v
+            if set(want) != set(b6):
+                yield "sample-permutation[e2e]", "sample-permutation[e2e]: group %d: the valid sample pairs %r became %r (expected %r) under the sample permutation %r" % (
+                    gi, sorted(b0), sorted(b6), sorted(want), perm)
+                continue
+            bad = [(k, want[k], b6[k]) for k in sorted(want) if not abs(want[k] - b6[k]) <= TOL_META * max(1.0, abs(want[k]))]
+            if bad:
+                yield "sample-permutation[e2e]", "sample-permutation[e2e]: group %d: log ratio of pair %r should be %r after the sample permutation %r, is %r" % (
+                    gi, bad[0][0], bad[0][1], perm, bad[0][2])
+        # 5c. the LFQ intensities themselves (two different lsqr runs: tolerance from lsqr's stopping rules)
+        for gi, g in enumerate(case["groups"]):
+            pg = [[p[0], p[1], perm[p[2]], p[3], p[4], p[5]] for p in g]
+            tol6 = ls_tolerance(n, g, cutoff, case["minr"], case["stab"], graph) + ls_tolerance(
+                n, pg, cutoff, case["minr"], case["stab"], g6)
+            if not vec_close(base[gi], o6[gi], tol6):
                 yield "sample-permutation[e2e]", "sample-permutation[e2e]: group %d LFQ %r became %r (re-indexed) under the sample permutation %r" % (gi, base[gi], o6[gi], perm)
 
     def _perm_region(self, case, impl_out, cat):
